@@ -197,7 +197,12 @@ fn load_err_kind(e: &ConfigError) -> String {
         ConfigError::BufferSizeTooSmallForH2 { .. } => "buffer-too-small-for-h2".into(),
         other => {
             let d = format!("{other:?}");
-            format!("other:{}", d.split(|c: char| !c.is_alphanumeric()).next().unwrap_or("?"))
+            let name = d.split(|c: char| !c.is_alphanumeric()).next().unwrap_or("?").to_string();
+            if name == "InvalidHealthCheck" {
+                "invalid-health-check".into()
+            } else {
+                format!("other:{name}")
+            }
         }
     }
 }
